@@ -109,6 +109,7 @@ def run(prog, rep):
               "triples %s, dispatch %s" % ([t[:3] for t in tr], disp), sl.where,
               witness="a Section's attributes end up on another node / the node is not reachable from its parent")
     link_every_iteration(prog, rep, "PROV-7")
+    repository_linked_on_every_path(prog, rep, "PROV-7")
     sd = W.lookup_method("save_document")
     g = build_cfg(sd)
     dx = Expander(sd, g, inline=prog)
@@ -396,6 +397,24 @@ def _strip_format_module(prog, f, text):
         if getattr(r, "name", None) == "odml.format" and "." in text:
             return text.split(".", 1)[1]
     return text
+
+
+def repository_linked_on_every_path(prog, rep, rule="PROV-7"):
+    """save_repository_node: whether the terminology node is new or already known, the element is linked to it"""
+    from ..logic import reach_avoiding
+    W = prog.cls("RDFWriter")
+    sr = W.lookup_method("save_repository_node")
+    if sr is None:
+        raise AnalysisError("RDFWriter.save_repository_node vanished")
+    rep.saw_function(sr)
+    g = build_cfg(sr)
+    parent, pred = sr.params[1], sr.params[2]
+    links = set(t[3].id for t in triples(prog, sr) if t[0] == parent and t[1] == pred)
+    ok = bool(links) and not reach_avoiding(g, g.entry, g.exit, lambda s0, k0, d0: d0.id in links, skip_kinds=("exc",))
+    rep.check(ok, rule, "save_repository_node links the element on every path", "graph.add((%s, %s, <terminology node>)) on every path" % (parent, pred),
+              "save_repository_node can return without adding (%s, %s, <terminology node>): an element whose repository URL was exported "
+              "before loses its repository" % (parent, pred), sr.where,
+              witness="a Document and one of its Sections with the same repository: the second one is exported without it")
 
 
 def link_every_iteration(prog, rep, rule="PROV-7"):
